@@ -528,12 +528,25 @@ func Values(t *T, lvl int) []V {
 				out = append(out, V{E: []V{e}})
 			}
 		}
-		if lvl >= 3 {
-			big := make([]V, 128)
-			for i := range big {
-				big[i] = ev[i%len(ev)]
+		if lvl >= 2 {
+			// lengths around the growth steps of the decoders (8, 16, 32) and where the byte
+			// length of packed fixed-width elements crosses 128 while the count does not
+			for _, n := range []int{9, 17, 33} {
+				l := make([]V, n)
+				for i := range l {
+					l[i] = ev[(i+1)%len(ev)]
+				}
+				out = append(out, V{E: l})
 			}
-			out = append(out, V{E: big})
+		}
+		if lvl >= 3 {
+			for _, n := range []int{127, 128, 129} {
+				big := make([]V, n)
+				for i := range big {
+					big[i] = ev[i%len(ev)]
+				}
+				out = append(out, V{E: big})
+			}
 		}
 	case KMap:
 		kv := distinctKeys(t.Key, Values(t.Key, lvl-1))
@@ -550,7 +563,7 @@ func Values(t *T, lvl int) []V {
 				out = append(out, V{E: []V{k, nzv}})
 			}
 			for _, v := range Values(t.Elem, lvl) {
-				out = append(out, V{E: []V{nzk, v}})
+				out = append(out, V{E: []V{nzk, v}}, V{E: []V{zk, v}})
 			}
 			if len(kv) > 2 {
 				out = append(out, V{E: []V{kv[1], nzv, zk, zv, nzk, vv[len(vv)/2]}})
